@@ -25,7 +25,7 @@ import json
 import multiprocessing
 import os
 
-from common import Coverage, Driver, rng, shrink_list, violation
+from common import Coverage, Driver, coq_eval, rng, shrink_list, violation
 from ref import bcast_ref as R
 
 # ------------------------------------------------------------------ fixed vocabulary
@@ -639,6 +639,168 @@ def canon_model_val(a):
     return a
 
 
+# ------------------------------------------------------------------ extraction cross-check (vm_compute)
+_XC_OUT = {"notapple": 0, "othertype": 1, "nopairing": 2, "nokey": 3, "nodesc": 4, "nodecrypt": 5, "stale": 6,
+           "mismatch": 7, "accepted": 8, "crash-struct": 10, "crash-unicode": 11, "crash-nochar": 12, "plain": 99}
+_XC_FMT = {"bool": "FBool", "u8": "FU8", "u16": "FU16", "u32": "FU32", "u64": "FU64", "int": "FInt",
+           "float": "FFloat", "string": "FString", "other": "FOther"}
+_XC_PRELUDE = """From Coq Require Import List NArith ZArith.
+From AHK Require Import Lib.ByteStr Model.Bcast.
+Import ListNotations.
+Open Scope Z_scope.
+Definition zb (l : bytes) : list Z := Z.of_nat (length l) :: map Z.of_N l.
+Definition show_v (v : value) : list Z :=
+  match v with
+  | VBool b => [0; if b then 1 else 0; 0]
+  | VInt z => [1; z; 0]
+  | VFloat n => [2; Z.of_N n; 0]
+  | VStr s => 3 :: 0 :: zb s
+  | VHex s => 4 :: 0 :: zb s
+  end.
+Definition show_ck (k : crashkind) : Z := match k with CkStruct => 10 | CkUnicode => 11 | CkNoChar => 12 end.
+Definition show_o (o : outcome) : Z :=
+  match o with
+  | ONotApple => 0 | OOtherType => 1 | ONoPairing => 2 | ONoKey => 3 | ONoDesc => 4 | ONoDecrypt => 5
+  | OStale => 6 | OMismatch => 7 | OAccepted => 8 | OCrash k => show_ck k
+  end.
+Definition show_call (x : call) : list Z :=
+  let '(i, aid, iid, v) := x in zb i ++ [Z.of_N aid; Z.of_N iid] ++ show_v v.
+Definition show_sns (c : ctrl) : list Z :=
+  Z.of_nat (length c) :: flat_map (fun p => match p_sn p with None => [0; 0] | Some n => [1; Z.of_N n] end) c.
+Definition show_step (o : Z) (cl : list call) (c : ctrl) : list Z :=
+  o :: Z.of_nat (length cl) :: flat_map show_call cl ++ show_sns c.
+Definition xev := (frame + (bytes * N))%type.
+Fixpoint show_hist (c : ctrl) (h : list xev) : list Z :=
+  match h with
+  | [] => []
+  | inl f :: r => let '(c', o, cl) := detect c f in show_step (show_o o) cl c' ++ show_hist c' r
+  | inr (i, sn) :: r => let c' := plain_adv c i sn in show_step 99 [] c' ++ show_hist c' r
+  end.
+Definition show_val (r : crashkind + value) : list Z :=
+  match r with inl k => [0; show_ck k] | inr v => 1 :: show_v v end.
+"""
+
+
+def _xc_bytes(h):
+    return "[]" if h == "-" else "[" + "; ".join("%d%%N" % b for b in bytes.fromhex(h)) + "]"
+
+
+def _xc_optn(s):
+    return "None" if s == "-" else "(Some %d%%N)" % int(s)
+
+
+def _xc_term(line):
+    """a driver request line -> the Gallina term the driver evaluates for it (same parse as ocaml/drv_c18.ml)"""
+    toks = line.split(" ")
+    if toks[0] == "val":
+        return "show_val (from_bytes %s %s)" % (_XC_FMT[toks[1]], _xc_bytes(toks[2]))
+    ps, evs = [], []
+    for t in toks[1:]:
+        f = t.split(":")
+        if f[0] == "P":
+            chars = "[]" if f[4] == "-" else "[" + "; ".join(
+                "(%d%%N, %s)" % (int(c.split(".")[0]), _XC_FMT[c.split(".")[1]]) for c in f[4].split(",")) + "]"
+            ps.append("mkP %s %s %s %s" % (_xc_bytes(f[1]), _xc_optn(f[2]), _xc_optn(f[3]), chars))
+        elif f[0] == "A":
+            b = f[2].split(".")
+            if b[0] == "S":
+                body = "PSeal %d%%N %d%%N %s %s" % (int(b[1]), int(b[2]), _xc_bytes(b[3]), _xc_bytes(b[4]))
+            elif b[0] == "J":
+                body = "PJunk"
+            elif b[0] == "H":
+                body = "PShort [%s]" % ("" if b[1] == "-" else "; ".join("%d%%N" % int(x) for x in b[1].split(",")))
+            else:
+                body = "PEmpty"
+            evs.append("inl (%s, %s)" % (_xc_bytes(f[1]), body))
+        else:
+            evs.append("inr (%s, %d%%N)" % (_xc_bytes(f[1]), int(f[2])))
+    return "show_hist [%s] [%s]" % ("; ".join(ps), "; ".join(evs))
+
+
+def _xc_val(v):
+    hb = lambda h: [] if h == "-" else list(bytes.fromhex(h))  # noqa: E731
+    if v[0] == "b":
+        return [0, int(v[1:]), 0]
+    if v[0] == "i":
+        return [1, int(v[1:]), 0]
+    if v[0] == "f":
+        return [2, int(v[1:]), 0]
+    s = hb(v[1:])
+    return [3 if v[0] == "s" else 4, 0, len(s)] + s
+
+
+def _xc_expect(line, ans):
+    """the driver's answer line -> the flat list of integers show_hist / show_val must evaluate to"""
+    if line.startswith("val "):
+        return [0, _XC_OUT[ans]] if ans.startswith("crash-") else [1] + _xc_val(ans)
+    out = []
+    for tok in ([] if ans == "." else ans.split(" ")):
+        o, calls, sns = tok.split("/")
+        cl = [] if calls == "-" else calls.split("+")
+        out += [_XC_OUT[o], len(cl)]
+        for c in cl:
+            pid, aid, iid, v = c.split(".", 3)
+            idb = [] if pid == "-" else list(bytes.fromhex(pid))
+            out += [len(idb)] + idb + [int(aid), int(iid)] + _xc_val(v)
+        sl = sns.split(",") if sns else []
+        out.append(len(sl))
+        for x in sl:
+            out += [0, 0] if x == "-" else [1, int(x)]
+    return out
+
+
+def xc_sample(hist_pairs, val_pairs, nhist=18, nval=10):
+    """deterministic sample of (request line, driver answer): first the histories that add a model outcome / payload
+    kind / event kind not yet covered, then an even spread over the streams; values spread over formats and results"""
+    ok = lambda a: not (a.startswith("driver-exception") or a == "bad-request")  # noqa: E731
+    hp = [(i, l, a) for i, (l, a, _) in enumerate(hist_pairs) if ok(a) and len(l) < 6000]
+    picked, seen = [], set()
+    for i, l, a in hp:
+        feats = {"o:" + t.split("/")[0] for t in a.split(" ") if "/" in t}
+        feats |= {"b:" + t.split(":")[2][0] for t in l.split(" ") if t.startswith("A:")}
+        feats |= {"e:R" for t in l.split(" ") if t.startswith("R:")}
+        if feats - seen and len(picked) < nhist - 6:
+            seen |= feats
+            picked.append(i)
+    by_stream = {}
+    for i, _, _ in hp:
+        by_stream.setdefault(hist_pairs[i][2].split(":")[0], []).append(i)
+    for st in sorted(by_stream):
+        idx = by_stream[st]
+        for j in (len(idx) // 3, (2 * len(idx)) // 3):
+            if idx[j] not in picked and len(picked) < nhist:
+                picked.append(idx[j])
+    sample = [(hist_pairs[i][0], hist_pairs[i][1]) for i in sorted(picked)]
+    vseen, vp = set(), []
+    cls = lambda a: a[:9] if a.startswith("crash") else a[0]  # noqa: E731
+    # first one of every result class (b i f s x crash-struct crash-unicode), then one of every (format, class)
+    for keyf in (lambda l, a: cls(a), lambda l, a: (l.split(" ")[1], cls(a))):
+        for l, a in val_pairs:
+            k = keyf(l, a)
+            if ok(a) and k not in vseen and (l, a) not in vp and len(vp) < nval and len(l.split(" ")[2]) > 2:
+                vseen.add(k)
+                vp.append((l, a))
+    return sample + vp
+
+
+def vm_crosscheck(ctx, sample):
+    """Evaluate the sampled driver requests with vm_compute inside Coq (same model functions the driver calls:
+    detect / plain_adv folded over the history, from_bytes) and compare the complete answer content with what the
+    extracted OCaml driver printed.  Takes extraction + ocaml/drv.ml + ocaml/drv_c18.ml out of the
+    single-point-of-trust position.  -> (requests, disagreements, first disagreeing request or None)"""
+    import re
+    body = _XC_PRELUDE + "".join("Eval vm_compute in (%s).\n" % _xc_term(l) for l, _ in sample)
+    out = coq_eval(ctx["verif"], "C18", "crosscheck", body, timeout=120)
+    blocks = out.split("= ")[1:]
+    bad, first = abs(len(blocks) - len(sample)), None
+    for blk, (l, a) in zip(blocks, sample):
+        got = [int(x) for x in re.findall(r"-?\d+", blk.split(":")[0])]
+        if got != _xc_expect(l, a):
+            bad += 1
+            first = first or dict(request=l[:600], driver=a[:600], vm_compute=" ".join(map(str, got))[:600])
+    return len(sample), bad, first
+
+
 # ------------------------------------------------------------------ run
 def run_histories(drv, hs):
     lines = [model_line(w, evs) for w, evs, _ in hs]
@@ -739,7 +901,9 @@ def run(ctx):
     # values.from_bytes on its own: implementation vs model vs reference
     vcases = gen_val_cases(tier, rng(seed, "c18val"))
     vi = impl_values(vcases)
-    vm = [canon_model_val(a) for a in drv.batch(["val %s %s" % (MODEL_FMT.get(f, "other"), R.hexs(v)) for f, v in vcases])]
+    vlines = ["val %s %s" % (MODEL_FMT.get(f, "other"), R.hexs(v)) for f, v in vcases]
+    vraw = drv.batch(vlines)
+    vm = [canon_model_val(a) for a in vraw]
     for (f, v), a, b in zip(vcases, vi, vm):
         ref = R.decode_value(f, v)
         refc = ref if ref is not None else ("crash-unicode" if f == "string" else "crash-struct")
@@ -753,6 +917,17 @@ def run(ctx):
             seen_keys.add("val:model-mismatch")
             viols.append(violation("val:model-mismatch", "from_bytes(%s, %s): impl %s != model %s" % (f, v.hex(), a, b), False,
                                    fmt=f, value=v.hex(), impl=a, model=b))
+
+    if not ctx.get("replay"):
+        xs = xc_sample([(l, a, st) for l, a, (_, _, st) in zip(lines, model, allh)], list(zip(vlines, vraw)))
+        xn, xbad, xfirst = vm_crosscheck(ctx, xs)
+        cov.extra["vm_compute_crosscheck"] = dict(requests=xn, disagreements=xbad,
+                                                  kinds=dict(hist=sum(1 for l, _ in xs if l.startswith("hist")),
+                                                             val=sum(1 for l, _ in xs if l.startswith("val "))))
+        if xbad:
+            viols.append(violation("extraction-vs-vm_compute",
+                                   "%d of %d sampled requests: extracted driver and vm_compute disagree" % (xbad, xn),
+                                   False, first=xfirst, broken="extraction / ocaml driver glue (ocaml/drv.ml, ocaml/drv_c18.ml)"))
 
     all_out = {"notapple", "othertype", "nopairing", "nokey", "nodesc", "nodecrypt", "stale", "mismatch", "accepted",
                "crash-struct", "crash-unicode", "crash-nochar"}
